@@ -1,10 +1,14 @@
 import HypatiaProofs.Lemmas.QueryCompl
+import HypatiaProofs.Lemmas.QueryEndToEnd
 
 /-!
 # C04  And/Or/Not compose query results as intersection, union and complement
 
 `applyQ cat q` is the model of `q._apply(names)` / `q.execute(optimize=False)` over a catalog
-whose comparators are answered at specification level (C01/C02/C03 justify that).
+whose comparators are answered at specification level.  For field and keyword/facet indexes that is
+justified by a theorem, not by reference: `c04_end_to_end` composes C01/C02 with this file – the same
+`_apply` composition (one definition, `applyQL`, parametric in the leaf oracle) run over the index *models*
+after arbitrary histories has the same outcome on every tree (text leaves stay at specification level).
 Statements only; proofs of the lemmas are in `Lemmas/Query*.lean`.
 -/
 namespace Hyp.Query
@@ -76,6 +80,63 @@ theorem c04_notall_violates_complement :
     applyQ cat (.cmp .all 0 (.many [1, 2])) = .ok [1] ∧
     applyQ cat (.not (.cmp .all 0 (.many [1, 2]))) = .ok [1] ∧
     docs cat = [3, 2, 1] := ⟨rfl, rfl, rfl⟩
+
+/-! ## composition with C01/C02: leaves answered by the index models -/
+
+/-- **End to end.**  For all histories of all indexes of the catalog (field: index / re-index / no value /
+unindex / reset, C01; keyword: the same plus `optimize()` and threshold changes, C02), for every tree:
+`_apply` over the index models (`applyQM`: leaves are the models' `applyEq … applyNotInRange`, `_negate`
+with its short-cuts) raises exactly when `_apply` over the specification tables raises – the same error –
+and otherwise returns the same members.  So every theorem of this file and of C05 about `applyQ` holds for
+the composed models. -/
+theorem c04_end_to_end (hs : List IndexH) (q : Q) :
+    (∀ e, applyQM (modelCatalog hs) q = .error e ↔ applyQ (specCatalog hs) q = .error e) ∧
+    (∀ r, applyQM (modelCatalog hs) q = .ok r →
+      ∃ r', applyQ (specCatalog hs) q = .ok r' ∧ ∀ d, d ∈ r ↔ d ∈ r') ∧
+    (∀ r', applyQ (specCatalog hs) q = .ok r' →
+      ∃ r, applyQM (modelCatalog hs) q = .ok r ∧ ∀ d, d ∈ r ↔ d ∈ r') := by
+  have h := applyQM_refines hs q
+  refine ⟨(ResEq.ok_iff h).2, (ResEq.ok_iff h).1, fun r' hr' => ?_⟩
+  obtain ⟨r, hr, he⟩ := (ResEq.ok_iff (ResEq.symm h)).1 r' hr'
+  exact ⟨r, hr, fun d => (he d).symm⟩
+
+/-- the congruence behind it: `_apply` depends on the leaf answers only up to member-wise equality
+(the short-cuts of `intersect`/`union` and `And`'s early exit test emptiness only) -/
+theorem c04_apply_congruence (L1 L2 : Leaves) (h : LeavesEq L1 L2) (q : Q) :
+    ResEq (applyQL L1 q) (applyQL L2 q) := applyQL_congr h q
+
+/-- e.g. totality and And = intersection, transported to the composed models -/
+theorem c04_and_end_to_end (hs : List IndexH) (qs : List Q)
+    (hw : wellTyped (specCatalog hs) (.and qs) = true) :
+    ∃ r, applyQM (modelCatalog hs) (.and qs) = .ok r ∧
+      ∀ d, d ∈ r ↔ ∀ q ∈ qs, ∃ rq, applyQM (modelCatalog hs) q = .ok rq ∧ d ∈ rq := by
+  obtain ⟨hne, hall⟩ := (wellTyped_and supports _ qs).mp hw
+  obtain ⟨r, hr, he⟩ := (c04_end_to_end hs (.and qs)).2.2 _ (applyQ_val hw)
+  refine ⟨r, hr, fun d => ?_⟩
+  rw [he d, val_and hw]
+  constructor
+  · intro h q hq
+    obtain ⟨rq, hrq, heq⟩ := (c04_end_to_end hs q).2.2 _ (applyQ_val (hall q hq))
+    exact ⟨rq, hrq, (heq d).mpr (h q hq)⟩
+  · intro h q hq
+    obtain ⟨rq, hrq, hd⟩ := h q hq
+    obtain ⟨r', hr', heq⟩ := (c04_end_to_end hs q).2.1 rq hrq
+    have : r' = val (specCatalog hs) q := by simp [val, hr']
+    rw [← this]; exact (heq d).mp hd
+
+/-! non-vacuity: histories with re-index, a value-less document, unindex, an empty keyword list, a
+threshold change and `optimize()`; the tree uses a range, a negated comparator and a nested `Not` -/
+example :
+    let hs : List IndexH :=
+      [.field [.index 1 (some 5), .index 2 (some 7), .index 1 (some 8), .index 3 none, .index 4 (some 5),
+               .unindex 2],
+       .keyword [.setThr 2, .index 1 (some [1, 2, 1]), .index 3 (some [2]), .optimize, .index 4 (some [3]),
+                 .index 5 (some []), .index 4 (some [2, 3])]]
+    let q : Q := .or [.and [.range false 0 5 8 false true, .cmp .noteq 1 (.one 1)],
+                      .not (.or [.cmp .le 0 (.one 7), .cmp .any 1 (.many [3])])]
+    applyQM (modelCatalog hs) q = .ok [1, 4] ∧ applyQ (specCatalog hs) q = .ok [1, 4] ∧
+      applyQM (modelCatalog hs) (.range true 0 5 6 false true) = .ok [1, 3] ∧
+      applyQ (specCatalog hs) (.range true 0 5 6 false true) = .ok [3, 1] := ⟨rfl, rfl, rfl, rfl⟩
 
 /-! non-vacuity: a Total catalog (field + keyword), a strict well-typed tree with nested Not -/
 example :
